@@ -20,6 +20,7 @@ class Rec14:
         self.flight = []        # PDUs on their way: dict(src, dst, pgn, data)
         self.todo = []          # pending application answers: dict(node, count, cmd)
         self.pendC, self.pendS = {}, {}
+        self.addr = []
 
     def do(self, line):
         (l, outs), = self.ex.run([line])
@@ -30,7 +31,7 @@ class Rec14:
         for o in outs:
             f = o.split()
             if f[0] == 'tx':
-                self.flight.append(dict(src=0x80 + node, dst=int(f[2]), pgn=int(f[1]), data=pyexec.parse_list(f[4])))
+                self.flight.append(dict(src=self.addr[node], dst=int(f[2]), pgn=int(f[1]), data=pyexec.parse_list(f[4])))
             elif f[0] == 'proceed':
                 self.last_proceed = dict(node=node, cmd=int(f[1]), count=int(f[5]))
             elif f[0] == 'notify':
@@ -43,9 +44,14 @@ class Rec14:
             self.pendS[node] = False
         return outs
 
-    def new(self, sec, hp, delta):
-        self.do(f"m14.new {int(sec)} {int(hp)} {delta}")
+    def new(self, sec, hp, delta, own=None):
+        own = 0x80 + self.nodes if own is None else own
+        self.addr.append(own)
+        self.do(f"m14.new {int(sec)} {int(hp)} {delta} {own}")
         self.nodes += 1
+
+    def node_of(self, a):
+        return self.addr.index(a) if a in self.addr else -1
 
     def deliver_one(self, reorder=False):
         """hand the oldest PDU of a random pair (or any, when reordering) to its node"""
@@ -62,10 +68,10 @@ class Rec14:
             pr = rng.choice(pairs)
             k = next(i for i, m in enumerate(self.flight) if (m['src'], m['dst']) == pr)
         m = self.flight.pop(k)
-        j = m['dst'] - 0x80
+        j = self.node_of(m['dst'])
         if 0 <= j < self.nodes:
             self.do(f"m14.deliver {j} {m['pgn']} {m['src']} {fmt(m['data'])} {self.seed()} {1 if rng.random() < self.p_accept else 0}")
-            i = m['src'] - 0x80
+            i = self.node_of(m['src'])
             if len(m['data']) > 8 and 0 <= i < self.nodes:
                 # the transport's end-of-message acknowledgement is reported to the originator's listeners
                 n = len(m['data'])
@@ -78,7 +84,7 @@ class Rec14:
 
     def hostile(self, j):
         rng = self.rng
-        sa = rng.choice([0x80, 0x81, 0x82, 0x33, 0x33, rng.randrange(256)])
+        sa = rng.choice(self.addr + [0x33, 0x33, 0, rng.randrange(256)])
         pgn = rng.choice([DM14, DM14, DM15, DM16, 0xFECA])
         if pgn == DM14:
             data = [rng.choice([1, 2, 5, 255]), (rng.randrange(2) << 4) + (rng.choice([0, 1, 2, 4, 5, 7]) << 1) + 1,
@@ -114,9 +120,11 @@ def script(rng, repo, hostile=False):
     sec = rng.random() < 0.5
     n = rng.choice([2, 2, 3])
     rec.p_accept = rng.choice([1.0, 1.0, 0.7])
+    zero = rng.random() < 0.2
     for k in range(n):
         mixed = rng.random() < 0.1
-        rec.new(sec if not mixed else not sec, k > 0 or rng.random() < 0.5, rng.choice([0, 0, 0, 1, rng.randrange(0x10000)]) if k == 0 else 0)
+        rec.new(sec if not mixed else not sec, k > 0 or rng.random() < 0.5, rng.choice([0, 0, 0, 1, rng.randrange(0x10000)]) if k == 0 else 0,
+                own=0 if (zero and k == 0) else None)
     if rng.random() < 0.2:
         rec.do(f"m14.appsub {rng.randrange(n)} {rng.randrange(2)}")
     steps = rng.randrange(5, 80)
@@ -141,7 +149,7 @@ def script(rng, repo, hostile=False):
                    f"{rng.choice([6, 7, 255, 0])} {rec.seed()}")
         elif r < 0.82:
             if not rec.pendC.get(i):
-                rand_op(rec, rng, i, [0x81, 0x81, 0x81, 0x80 + rng.randrange(n), 0x44] if not calm else [0x81])
+                rand_op(rec, rng, i, [rec.addr[1], rec.addr[1], rec.addr[1], rec.addr[rng.randrange(n)], 0x44] if not calm else [rec.addr[1]])
         elif calm:
             if rng.random() < 0.3:
                 rec.do(f"m14.dump {rng.randrange(n)}")
